@@ -5,6 +5,7 @@ import MdkVerif.Proofs.Proposal
 import MdkVerif.Props.C06Wrap
 import MdkVerif.Props.C06Ffi
 import MdkVerif.Props.C08
+import MdkVerif.Proofs.Insert
 /-
   C06 — a refused event has no effect (the frame part; absence of panics is a runtime fact that the
   harness searches for, totality of the model is NOT presented as a no-panic proof).
@@ -373,6 +374,104 @@ example : let c := initCl 2 false 5 [0, 1, 2] [0] 1
     propKind x = some .gce ∧ (deliverP c x 0).2 = .ignored ∧ (deliverP c y 0).2 = .unprocessable := by decide
 
 end ProposalFrame
+
+/-! ## histories: a refused call inserted anywhere never shows later (Proofs/Insert.lean)
+
+  `refuse_frame_partial` is ONE call seen through `proj`.  The refused call may still touch what `proj` does not show: the
+  exporter-secret cache, the dedup record of the event (a Failed record), and — when the authorisation check refuses a commit
+  (`NonAdmin`) — the sender's ratchet generation, which OpenMLS consumed while decrypting.  `Ins.Eqv [] W X` is "equal up to
+  that" (`W`: the event numbers, `X`: the ciphertexts concerned); every client operation is a simulation for it. -/
+section Histories
+open MdkVerif.Client.Ins
+open MdkVerif.Props.C08 (COp)
+
+theorem isRefusal_eq_refusal : isRefusal = refusal := by funext r; cases r <;> rfl
+
+/-- **refused_calls_invisible_partial** — ANY client with the invariants (`Ins.IInv`, reachable: `C07.invariants_reachable`), after
+    ANY prefix, ANY list of deliveries `ins` each of which is refused (`Err`, `Unprocessable`, `PreviouslyFailed`, `Ignored`)
+    without winning a MIP-03 comparison (`refusedSeq`: the hypothesis of `refuse_frame_partial`, call by call), then ANY
+    suffix that does not deliver one of those event numbers or ciphertexts again (`avoids`): the inserted calls leave the
+    projection alone, every call of the suffix answers the same, and the runs end with the same projection. -/
+theorem refused_calls_invisible_partial (c : Cl) (hi : IInv c) (pre suf : List COp) (ins : List (Ev × Nat))
+    (hr : refusedSeq (hist c pre).1 ins = true)
+    (ha : suf.all (avoids (ins.map (·.1.n)) (ins.map (·.1.cipher))) = true) :
+    proj (hist c (pre ++ asOps ins)).1 = proj (hist c pre).1 ∧
+    proj (hist c (pre ++ asOps ins ++ suf)).1 = proj (hist c (pre ++ suf)).1 ∧
+    (hist (hist c (pre ++ asOps ins)).1 suf).2 = (hist (hist c pre).1 suf).2 := by
+  have := insert_refused (hist c pre).1 (iinv_hist c pre hi) ins suf hr ha
+  simp only [hist_append, List.append_assoc]
+  exact this
+
+/-- **refused_call_invisible_partial** — one refused call, in the vocabulary of `refuse_frame_partial`: no rollback is
+    triggered (`isBetter … = false`), the call reports failure; the suffix does not deliver that event number or that
+    ciphertext again (a later delivery of the SAME number legitimately finds the Failed record; the same ciphertext under
+    another wrapper finds its generation consumed if the refusal was `NonAdmin`: see the witnesses below).  Then every later
+    call answers as if the refused call had never been made, and the projections agree at the end. -/
+theorem refused_call_invisible_partial (c : Cl) (hi : IInv c) (pre suf : List COp) (e : Ev) (nx : Nat)
+    (hnb : isBetter (hist c pre).1 (epochOf e.path) e = false)
+    (hr : isRefusal (deliver (hist c pre).1 e nx).2 = true)
+    (ha : suf.all (avoids [e.n] [e.cipher]) = true) :
+    proj (hist c (pre ++ [.deliver e nx])).1 = proj (hist c pre).1 ∧
+    proj (hist c (pre ++ [.deliver e nx] ++ suf)).1 = proj (hist c (pre ++ suf)).1 ∧
+    (hist (hist c (pre ++ [.deliver e nx])).1 suf).2 = (hist (hist c pre).1 suf).2 := by
+  rw [isRefusal_eq_refusal] at hr
+  exact refused_calls_invisible_partial c hi pre suf [(e, nx)] (by simp [refusedSeq, hnb, hr]) ha
+
+/-- the unrestricted statement: a refused call never changes a later answer or the final projection -/
+def refused_call_invisible_full : Prop :=
+  ∀ (c : Cl) (pre suf : List COp) (e : Ev) (nx : Nat), IInv c → isRefusal (deliver (hist c pre).1 e nx).2 = true →
+    proj (hist c (pre ++ [.deliver e nx] ++ suf)).1 = proj (hist c (pre ++ suf)).1 ∧
+    (hist (hist c (pre ++ [.deliver e nx])).1 suf).2 = (hist (hist c pre).1 suf).2
+
+/-- refuted (1) without `isBetter = false`: the witness of `refuse_frame_full_false` (rollback-before-authorisation) -/
+theorem refused_call_invisible_full_false : ¬ refused_call_invisible_full := by
+  intro h
+  have := (h wClient [.deliver wGood 0] [] wEvil 0 (iinv_init ..) (by decide)).1
+  revert this; decide
+
+/-- refuted (2) with `isBetter = false` but a suffix that delivers the SAME event number again: a commit one epoch ahead is
+    refused (`Err(Message)`: no secret of its epoch yet) and recorded Failed; when it arrives again after its predecessor it is
+    blocked, the run without the early offer applies it (finding handshake-before-predecessor-blocked) -/
+def wAhead1 : Ev := { n := 1, ts := 20, idnum := 7, cipher := 1, sender := 0, path := [], kind := .commit .selfUpdate [] }
+def wAhead2 : Ev := { n := 8, ts := 30, idnum := 8, cipher := 8, sender := 0, path := [1], kind := .commit .selfUpdate [] }
+theorem witness_same_number_later :
+    isBetter wClient (epochOf wAhead2.path) wAhead2 = false ∧ (deliver wClient wAhead2 0).2 = .err eMessage ∧
+    (hist wClient [.deliver wAhead2 0, .deliver wAhead1 0, .deliver wAhead2 0]).2 = [.err eMessage, .commit, .unprocessable] ∧
+    (hist wClient [.deliver wAhead1 0, .deliver wAhead2 0]).2 = [.commit, .commit] ∧
+    (hist wClient [.deliver wAhead2 0, .deliver wAhead1 0, .deliver wAhead2 0]).1.g.path = [1] ∧
+    (hist wClient [.deliver wAhead1 0, .deliver wAhead2 0]).1.g.path = [1, 8] := by decide
+
+/-- (3) with `isBetter = false` but the same CIPHERTEXT under another wrapper in the suffix: a non-admin's commit is refused
+    `NonAdmin` AFTER OpenMLS decrypted it, so its re-wrapped copy is answered `Unprocessable` (generation consumed) instead of
+    `NonAdmin` — both refusals, the projection is the same, only the answer differs -/
+def wEvilNow : Ev := { n := 2, ts := 10, idnum := 9, cipher := 2, sender := 1, path := [], kind := .commit (.setData { initData [0] 1 with name := 6 }) [] }
+def wEvilCopy : Ev := { wEvilNow with n := 9, idnum := 4 }
+theorem witness_same_ciphertext_later :
+    (hist wClient [.deliver wEvilNow 0, .deliver wEvilCopy 0]).2 = [.err eNonAdmin, .unprocessable] ∧
+    (hist wClient [.deliver wEvilCopy 0]).2 = [.err eNonAdmin] ∧
+    proj (hist wClient [.deliver wEvilNow 0, .deliver wEvilCopy 0]).1 = proj (hist wClient [.deliver wEvilCopy 0]).1 := by decide
+
+/-! non-vacuity: refused insertions of three kinds — an OUTSIDER's event (created on a state the client never held: the wrapper
+    does not open), a wrong group tag (`GroupNotFound`), a stale epoch (a commit for an epoch the client has left and that does
+    not beat the applied one) — and a non-admin's commit, in a history with a race, a rollback and messages -/
+def hOutsider : Ev := { n := 20, ts := 50, idnum := 20, cipher := 20, sender := 7, path := [99], kind := .app 200 50 1 }
+def hWrongTag : Ev := { n := 21, ts := 51, idnum := 21, cipher := 21, sender := 0, path := [], kind := .commit .selfUpdate [], tag := 5 }
+def hStale : Ev := { n := 22, ts := 52, idnum := 22, cipher := 22, sender := 0, path := [], kind := .commit .selfUpdate [] }
+def hNonAdmin : Ev := { n := 23, ts := 53, idnum := 23, cipher := 23, sender := 1, path := [2], kind := .commit (.setData { initData [0] 1 with name := 6 }) [] }
+def hMsg : Ev := { n := 3, ts := 30, idnum := 3, cipher := 3, sender := 1, path := [2], kind := .app 30 30 7 }
+def hPre : List COp := [.deliver wGood 0, .deliver { wEvil with kind := .commit .selfUpdate [] } 0]   -- A applied, the better B wins
+def hSuf : List COp := [.deliver hMsg 0, .send 4 31 4 40 31 8, .deliver wGood 0, .stage 6 33 6 .selfUpdate false, .merge, .deliver hMsg 0]
+def hIns : List (Ev × Nat) := [(hOutsider, 0), (hWrongTag, 0), (hStale, 0), (hNonAdmin, 0), (hStale, 0)]
+
+example : (hist wClient hPre).1.g.path = [2] ∧ refusedSeq (hist wClient hPre).1 hIns = true ∧
+    (hist (hist wClient hPre).1 (asOps hIns)).2 = [.err eMessage, .err eGroupNotFound, .unprocessable, .err eNonAdmin, .unprocessable] ∧
+    hSuf.all (avoids (hIns.map (·.1.n)) (hIns.map (·.1.cipher))) = true := by decide
+example : (hist (hist wClient (hPre ++ asOps hIns)).1 hSuf).2 = (hist (hist wClient hPre).1 hSuf).2 :=
+  (refused_calls_invisible_partial wClient (iinv_init ..) hPre hSuf hIns (by decide) (by decide)).2.2
+example : (hist (hist wClient hPre).1 hSuf).1.g.path = [2, 6] ∧ (hist (hist wClient hPre).1 hSuf).1.msgs.length = 2 ∧
+    (hist (hist wClient (hPre ++ asOps hIns)).1 hSuf).1.g.consumed ≠ (hist (hist wClient hPre).1 hSuf).1.g.consumed := by decide
+
+end Histories
 
 /-! ### the outermost layer of `process_message` (raw kind-445 event → MLS layer), several groups per client:
     proved in Props/C06Wrap.lean over Model.Wrap, re-exported here so that they are obligations of this property -/
